@@ -41,6 +41,9 @@ CHECKS = {
  'C08': dict(technique=TECH,
    text='The handle discipline is model-checked as slots/ledger in BDDSpec (create, dup, drop in any order, collect, swap: RefExact, HeldSame). Seeded dd.autoref histories (all Function operators, traversals low/high/succ, second handles incl. copy.copy and _add_int, drops in random order, collect_garbage, reorder, one third with dynamic reordering on) are recorded with the ledger taken from gc.get_objects() (live Function objects per node) and every step is judged by TLC: count = in-edges + live Functions, live denotations unchanged; finally all handles are dropped: collection must leave only the terminal and the shutdown check must pass.',
    note=TRUST + 'CPython immediate finalisation of Function objects; the registry is gc.get_objects().', design='7 (C08)'),
+ 'C15': dict(technique='explicit TLA+ specification of MDDs (MDD.tla: semantics, contracts, transcription of find_or_add/ite/collect_garbage) model-checked with TLC (MC_MDD) and used by TLC to validate recorded dd.mdd executions and bdd_to_mdd conversions (TraceMDD.tla)',
+   text='MC_MDD explores the transcribed MDD algorithms (ternary + binary variable): canonical form (first edge regular), equal functions <=> equal references, exact counts, ite pointwise, collection exact. Seeded MDD histories (find_or_add, ite, all aliases of apply, incref/decref, collect_garbage over 2-3 integer variables of 2-4 values) and seeded bdd_to_mdd conversions (<= 6 bits in 1-3 integer variables, random integer and bit orders, 1-4 referenced functions of either sign) run on the real code; TLC evaluates every returned MDD reference on every integer assignment against the BDD on the encoded bits and checks the BDD functions intact.',
+   note=TRUST + 'Plus the adapter for dd.mdd tables. Integer variables have 2^bits values.', design='7 (C15)'),
  'C16': dict(technique='explicit TLA+ semantics of the abstract DDDMP file (TraceDDDMP.tla: FileDen by direct evaluation of the node list) checked by TLC against the manager returned by dd.dddmp.load',
    text='Seeded text-mode DDDMP files (1-3 roots of either sign over 1-5 support variables out of up to 8 declared, random children-before-parents numbering, gaps in permutation ids, with/without .orderedvarnames, varinfo 0/1/3) are written by the harness and loaded by the real dd.dddmp.load; TLC evaluates the file\'s node list directly (FileDen) and compares, by variable name, with the denotations of the returned roots computed from the returned manager\'s node table; every file node must be present; manager canonical; relative order kept.',
    note=TRUST + 'The DDDMP writer is a trusted ~80-line generator; the header grammar/lexer is not modelled (byte-level format is outside the technique).', design='7 (C16)'),
